@@ -718,7 +718,8 @@ pub fn operation_modulus(left: &Data, right: &Data) -> Data {
             (Data::Double(d1), Data::Double(d2)) => Data::Double(d1 % d2),
             (Data::Integer(d1), Data::Double(d2)) => Data::Double((*d1 as f64) % d2),
             (Data::Double(d1), Data::Integer(d2)) => Data::Double((*d1) % (*d2 as f64)),
-            (Data::Integer(i1), Data::Integer(i2)) => Data::Integer(i1 % i2),
+            (Data::Integer(_), Data::Integer(0)) => Data::Error("Division by zero in '%'".to_string()),
+            (Data::Integer(i1), Data::Integer(i2)) => Data::Integer(i1.wrapping_rem(*i2)),
             _ => Data::Error("Internal Error in '%' operation".to_string()),
         }
     } else {
